@@ -75,7 +75,7 @@ def run(task):
     res = {"evaluations": 0, "transitions": 0, "traces": 0, "state_set": [], "nontrivial": [], "outcomes": [],
            "samples": [], "violations": [], "unspecified": 0, "extra": {}}
     tier = task["tier"]
-    cap = 6 if tier == "quick" else 60
+    cap = 6 if tier == "quick" else 24
     idx = 0
 
     def report(msg, case, known=None):
